@@ -41,12 +41,37 @@ static void do_unpad(const unsigned char *block, size_t bs, size_t pre, int side
     v_gfree(&g);
 }
 
+/* lengths of 2^32 + k bytes (sparse mapping; only the pages around the tail are touched): the padding arithmetic must not be done in
+ * 32 bits. Recorded: the 64-bit values as bytes, whether the marker sits at buf[len], whether everything up to the padded length is
+ * zero, whether the byte behind it is untouched. */
+static void le8(unsigned long long v, unsigned char *o) { for (int i = 0; i < 8; i++) o[i] = (unsigned char) (v >> (8 * i)); }
+static void pad_huge(void) {
+    size_t total = ((size_t) 1 << 32) + ((size_t) 4 << 20);
+    unsigned char *buf = (unsigned char *) mmap(NULL, total, PROT_READ | PROT_WRITE, MAP_PRIVATE | MAP_ANONYMOUS | MAP_NORESERVE, -1, 0);
+    if (buf == MAP_FAILED) return;
+    static const size_t BS[] = { 1, 2, 3, 7, 16, 24, 100, 4096, 65537, 1000003 }; static const size_t K[] = { 0, 1, 5, 15, 16, 255 };
+    for (size_t bi = 0; bi < sizeof BS / sizeof BS[0]; bi++) for (size_t ki = 0; ki < sizeof K / sizeof K[0]; ki++) for (int capmode = 0; capmode < 3; capmode++) {
+        size_t bs = BS[bi], len = ((size_t) 1 << 32) + K[ki], want = len + (bs - len % bs);     /* 'want' only chooses the capacity; the oracle recomputes it */
+        size_t cap = capmode == 0 ? want : capmode == 1 ? want - 1 : want + 3; if (cap + 2 > total) continue;
+        memset(buf + len - 16, 0x55, 16 + (want - len) + 8 < ((size_t) 3 << 20) ? 16 + (want - len) + 8 : 16);
+        size_t plen = 0xdeadbeef; int ret = sodium_pad(&plen, buf, len, bs, cap);
+        int marker = 1, zeros = 1, after = 1;
+        if (ret == 0 && plen > len && plen <= total - 8) { marker = buf[len] == 0x80; for (size_t i = len + 1; i < plen; i++) zeros &= buf[i] == 0; after = buf[plen] == 0x55 || plen - len > ((size_t) 3 << 20); }
+        unsigned char l8[8], c8[8], p8[8]; le8(len, l8); le8(cap, c8); le8(plen, p8);
+        fprintf(v_out, "{\"op\":\"pad_huge\",\"bs\":%zu,\"ret\":%d,\"marker_ok\":%s,\"zeros_ok\":%s,\"after_ok\":%s,", bs, ret, marker ? "true" : "false", zeros ? "true" : "false", after ? "true" : "false");
+        v_emit_bytes("len", l8, 8); fputc(',', v_out); v_emit_bytes("cap", c8, 8); fputc(',', v_out); v_emit_bytes("plen", p8, 8); fputs("}\n", v_out);
+        if (ret == 0 && capmode == 0) { size_t ul = 0; int ru = sodium_unpad(&ul, buf, plen, bs); unsigned char u8[8]; le8(ul, u8);
+            fprintf(v_out, "{\"op\":\"unpad_huge\",\"bs\":%zu,\"ret\":%d,", bs, ru); v_emit_bytes("len", l8, 8); fputc(',', v_out); v_emit_bytes("ulen", u8, 8); fputs("}\n", v_out); }
+    }
+    munmap(buf, total);
+}
 int main(int argc, char **argv) {
     if (argc < 5) return 3;
     if (sodium_init() < 0) return 3;
     vrng r; vrng_seed(&r, strtoull(argv[1], NULL, 10), 16);
     size_t maxlen = (size_t) atoi(argv[2]);
     v_open(argv[3]); v_install_crash_handlers();
+    if (!strcmp(argv[4], "huge")) { pad_huge(); v_close(); return 0; }
     for (int a = 4; a < argc; a++) {
         size_t bs = (size_t) strtoull(argv[a], NULL, 10);
         for (size_t len = 0; len <= maxlen; len = len < 70 ? len + 1 : len + 1 + vrng_below(&r, 9)) {
